@@ -328,8 +328,10 @@ package hotspot
 // the controller constructor copies the rule's parameters and leaves the rule object as the caller passed it: the
 // loaded rules are recorded (currentRules) and compared with the next load, so a constructor that "normalises" a
 // field of the rule makes an identical reload look changed (the pinned tree did: repaired, 53030b8)
+// (under C05 and C06 too: the per-value thresholds and the general threshold the checkers read are the ones this
+// constructor puts into the controller — a constructor that filters or rewrites them changes what is enforced)
 //@ func newBaseTrafficShapingControllerWithMetric(r, metric) c
-//@   props C13, C14
+//@   props C13, C14, C05, C06
 //@   requires r != nil
 //@   ensures[fresh-controller] c != nil && fresh(c) && c.r == r && c.metric == metric && c.threshold == r.Threshold && c.paramIndex == r.ParamIndex && c.paramKey == r.ParamKey && c.durationInSec == r.DurationInSec && c.metricType == r.MetricType
 //@   ensures[specific-items-of-the-rule] r.SpecificItems != nil ==> c.specificItems == r.SpecificItems
